@@ -304,6 +304,35 @@ func checkGB(w *World, r *Report, la *LockAn, rule string, rows []GuardRow) {
 				r.Fail(rule, key, g.pos, "guarded-by violated: %s", strings.Join(g.bad, "; "))
 			}
 		}
+		// pairing: every function that takes the row's mutex releases it on
+		// every return (directly, by defer, or it is an acquiring wrapper used
+		// as such by its callers - none exists on the reviewed tree)
+		nAcq := 0
+		for _, f := range w.lunarFns {
+			if f.Origin() != nil || !acquiresMutexOf(f, row.Pkg, row.Struct, row.Mutex) {
+				continue
+			}
+			nAcq++
+			fid := fnID(outermost(f))
+			if f.Parent() != nil {
+				fid += "$" + f.Name()
+			}
+			key := fmt.Sprintf("pairing/%s.%s/%s", row.Struct, row.Mutex, shortFn(fid))
+			var bad []string
+			for _, l := range la.Leaks(f) {
+				if strings.HasSuffix(l.Key, "."+row.Mutex) {
+					bad = append(bad, fmt.Sprintf("return at %s with %s still held", w.Pos(l.Ret.Pos()), l.Key))
+				}
+			}
+			if len(bad) == 0 {
+				r.Hold(rule, key, f.Pos(), 1, "every return of the function is reached with %s released (or released by a defer)", row.Mutex)
+			} else {
+				r.Fail(rule, key, f.Pos(), "lock not released on every exit: %s - the next operation on the same object blocks forever", strings.Join(bad, "; "))
+			}
+		}
+		if nAcq == 0 {
+			r.Undec(rule, "pairing/"+row.Struct+"."+row.Mutex, token.NoPos, "no function acquires %s.%s", row.Struct, row.Mutex)
+		}
 		if total < row.MinSites {
 			r.Undec(rule, "GB/"+row.Struct+"/count", token.NoPos, "found %d access sites of %s.%v, hand-confirmed minimum %d", total, row.Struct, row.Fields, row.MinSites)
 		}
